@@ -387,7 +387,7 @@ def run_scenario(sc: Dict[str, Any]) -> Dict[str, Any]:
         sink = io.StringIO()
         rev.update({names[o]: o for o in OBJS})
         try:
-            with contextlib.redirect_stdout(sink), _Alarm(CALL_TIMEOUT):
+            with contextlib.redirect_stdout(sink), contextlib.redirect_stderr(sink), _Alarm(CALL_TIMEOUT):
                 b = system.systemBuilder(system)
                 b.addModuleString(src, "m")
                 b.buildModules()
@@ -440,7 +440,7 @@ def run_scenario(sc: Dict[str, Any]) -> Dict[str, Any]:
             r = None
             exc = ""
             try:
-                with contextlib.redirect_stdout(sink), _Alarm(CALL_TIMEOUT):
+                with contextlib.redirect_stdout(sink), contextlib.redirect_stderr(sink), _Alarm(CALL_TIMEOUT):
                     val = fn_of[op](ob)
                     html = "" if val is None else flatten(val)
             except Exception as e:           # the property: this never happens
@@ -469,7 +469,7 @@ def run_scenario(sc: Dict[str, Any]) -> Dict[str, Any]:
             if xstate() != x0:
                 frame_ok = False
         # the bystander still renders as in a scenario without any fault
-        with contextlib.redirect_stdout(sink):
+        with contextlib.redirect_stdout(sink), contextlib.redirect_stderr(sink):
             xhtml = flatten(epydoc2stan.format_docstring(obs["X"])) + flatten(epydoc2stan.format_summary(obs["X"]))
         F = {}
         for o in OBJS:
